@@ -19,7 +19,7 @@ let rec_str (r : record) =
   | 2 -> Printf.sprintf "%s.%s.%s.%s" (string_of_n r.r_run) (sz (rs_code r.r_state)) (sz r.r_status) (sz r.r_ver)
   | _ -> Printf.sprintf "%s.%s.%s.%s.%s.%s" (string_of_n r.r_run) (sz (rs_code r.r_state)) (sz r.r_status) (sz r.r_ver) (obj_str r.r_obj) (sz r.r_updated)
 let orec_str = function None -> "-" | Some r -> rec_str r
-let topic_tok = function TStatus s -> "s" ^ sz s | TDelete -> "d" | TRunStateChange -> "r"
+let topic_tok = function TStatus s -> "s" ^ sz s | TDelete -> "d" | TRunStateChange -> "r" | TConn c -> "k" ^ string_of_n c
 let hdr_str t run fid typ st ver = Printf.sprintf "%s.%s.%s.%s.%s.%s" (topic_tok t) (string_of_n run) (string_of_n fid) (sz typ) (sz st) (sz ver)
 let event_str (e : event) = Printf.sprintf "%s.%s.%s" (sz e.e_id) (hdr_str e.e_topic e.e_run e.e_fid e.e_type e.e_state e.e_ver) (sz e.e_created)
 let uret_str = function
